@@ -17,12 +17,14 @@ TRUSTED = ["extraction: ExtrOcamlBasic only, no Extract Constant; ocaml/serial_d
            "(dump parsing; the oracles show17 = printf %.16e and read_f = libstdc++ num_get scan + strtod)",
            "harness/h_serial.cc: object histories, canonical dumps (private members read via #define private public)",
            "g++ 12 ASan/UBSan as the detector of out-of-bounds accesses in load()"]
-ASSUMPTIONS = ["H_17digits (Section hypothesis of coq/Serial/SerialProofs.v): for every finite double x, show17 x is "
-               "non-empty, contains no white space, and read_f (pre ++ show17 x ++ rest) = Some (x, rest) for every "
-               "white-space prefix and every rest that is empty or starts with white space (glibc printf %.16e / strtod "
-               "round-trip); exercised by the correspondence on extreme doubles",
-               "memory allocation is not modelled (a damaged size field large enough to make the allocation throw is "
-               "outside the model and outside the property's digit-count-preserving damage)"]
+ASSUMPTIONS = ["float_text_ok show17 read_f (hypothesis of the C11 theorems that involve doubles; H_17digits of DESIGN 3): "
+               "for every finite double x, show17 x is non-empty, contains no white space, and "
+               "read_f (pre ++ show17 x ++ rest) = Some (x, rest) for every white-space prefix and every rest that is empty "
+               "or starts with white space (glibc printf %.16e / strtod round trip); blank_fails read_f (fitness, summary): "
+               "operator>> fails on a stream of blanks; both proved satisfiable (C11_float_hypotheses_satisfiable) and "
+               "exercised by the correspondence on extreme doubles",
+               "memory allocation is not modelled (a damaged size field large enough to make an allocation fail is "
+               "outside the model)"]
 
 
 def build():
